@@ -99,6 +99,18 @@ static void __attribute__((noinline)) verif_scrub_stack(void) {
 #define VERIF_CASE_SECONDS 20
 #endif
 
+/* A case that does not return is an observation (TIMEOUT), not a hang.  The limit is on the CPU time the case consumes
+   (ITIMER_PROF -> SIGPROF), so that a loaded machine cannot turn a slow but terminating case into a false TIMEOUT; a wall-clock
+   alarm of thirty times the limit remains as a backstop for a case that blocks without computing. */
+#include <sys/time.h>
+static void verif_case_timer(int seconds) {
+    struct itimerval it;
+    memset(&it, 0, sizeof it);
+    it.it_value.tv_sec = seconds;
+    setitimer(ITIMER_PROF, &it, NULL);
+    alarm(seconds ? 30 * (unsigned) seconds : 0);
+}
+
 int main(void) {
     char *line = NULL;
     size_t cap = 0;
@@ -118,12 +130,12 @@ int main(void) {
         }
         if (argc == 0) { printf("bad-op\n"); fflush(stdout); continue; }
         argv[argc] = NULL;
-        alarm(VERIF_CASE_SECONDS);       /* a case that does not return is an observation (TIMEOUT), not a hang */
+        verif_case_timer(VERIF_CASE_SECONDS);
 #ifdef VERIF_WRAP_ALLOC
         verif_case_begin();
 #endif
         handle(argc, argv);
-        alarm(0);
+        verif_case_timer(0);
 #ifdef VERIF_WRAP_ALLOC
         if (leakcheck) { long nleak = verif_case_leaks(); if (nleak) printf(" !LEAK%ld", nleak); }
 #elif VERIF_HAVE_LSAN
